@@ -211,8 +211,11 @@ public:
       std::vector<label_t> succs;
       for (auto const &n : boost::make_iterator_range(b.next_blocks()))
         succs.push_back(n);
-      if (succs.empty()) {
+      if (succs.empty() || (depth > 0 && cfg.has_exit() && cur == cfg.exit())) {
+        // a callee returns when it has executed its exit block (even if that
+        // block has successors: crab's analyses treat the exit as the return point)
         res = Stop::NoSuccessor;
+        last_block_was_exit = cfg.has_exit() && cur == cfg.exit();
         break;
       }
       // one-block look-ahead: prefer successors whose leading assumes hold
